@@ -108,6 +108,8 @@ func checkC23(w *World, r *Run) {
 	ruleSecDrain := r.Rule("secondary-outbox-copies-from-drained-source", "F1",
 		"a secondary is usually the storage outbox: its CopyObject forwards only after an error-checked drain covering the source bucket and key and the destination bucket and key, so the copy on the secondary reads what the primary read", 1)
 	checkOutboxDrain(w, r, ruleSecDrain, map[string]bool{"CopyObject": true})
+	ruleQueued := r.Rule("queued-put-metadata-is-rebuilt-completely", "F3", "in both dialects FindStorageOutboxEntryPutOptionsById rebuilds ObjectMetadata under a guard that tests every variable the literal uses", 2)
+	checkQueuedPutMetadataGuard(w, r, ruleQueued)
 	checkC23Rewind(w, r)
 	r.NotCovered("equality of the resulting states; behaviour when a secondary fails half-way (the primary is already changed); explicit version ids")
 }
